@@ -210,6 +210,22 @@ class FakeConn(object):
     def close(self):
         self.closed = True
 
+    def poll(self, timeout=None):
+        # (a client that asks whether the reply is there yet: it is, unless the server is slow - see SlowConn)
+        return self.answered < len(self.sent)
+
+
+class SlowConn(FakeConn):
+    """a server that takes longer than any time limit a client may set: asked whether the reply has come, it says no - once per request"""
+    def __init__(self, w):
+        FakeConn.__init__(self, w)
+        self.asked = {}
+
+    def poll(self, timeout=None):
+        k = len(self.sent)
+        self.asked[k] = self.asked.get(k, 0) + 1
+        return self.asked[k] > 1 and self.answered < len(self.sent)
+
 
 class FakeThread(object):
     def __init__(self, w, target):
@@ -629,6 +645,18 @@ def close_and_call(run):
         except Exception as e:
             r = e
         prove('usable-again-after-close', launched == [1] and r == ['reply-to', 1], clause='after close() the client launches a new server on the next call', path=path)
+        run.case = 'slow-reply'
+        # replies pair with requests also when one takes long: the caller of the slow request gets its reply, the next caller its own
+        e6 = R.Environment()
+        e6.conn = SlowConn(w)
+        outs = []
+        for k in (1, 2, 3):
+            try:
+                outs.append(e6._call('eval', 'request %d' % k))
+            except Exception as e:
+                outs.append('raised %s: %s' % (type(e).__name__, e))
+        prove('a-slow-reply-is-still-the-reply-to-its-request', outs == [['reply-to', 1], ['reply-to', 2], ['reply-to', 3]],
+              clause='three calls on a server that is slow to answer: each gets the reply to its own request [%r]' % (outs,), path=path)
         run.case = '_threaded_run'
         # guarantee of the starter thread == the rely transitions E1 / E2
         for fails in (False, True):
